@@ -338,3 +338,19 @@ Proof.
   destruct (init_realm_parts cfg) as (E1 & E2 & E3 & E4).
   apply idle_sizes; auto; rewrite run_cfg, E1; assumption.
 Qed.
+
+(** non-vacuity of [empty_when_idle]: the history of [C05Ex] followed by the
+    departure of everybody *)
+Module IdleEx.
+  Definition ops1 : list op := C05Ex.ops0 ++ [ODrop 11; ODrop 10; OMsg 12 (CGoodbye [] "x") 0].
+  Lemma hyps : Forall op_ok ops1 /\ k0 C05Ex.cfg0 + N.of_nat (List.length ops1) <= max_idN /\
+               r_clients (fst (run (init_realm C05Ex.cfg0) ops1)) = [] /\
+               sizes (init_realm C05Ex.cfg0) = [0; 0; 1; 0; 0; 1; 0; 1; 23; 0; 0; 23; 0; 0; 0; 1].
+  Proof.
+    split; [|split; [|split]].
+    - unfold ops1. apply Forall_app. split; [apply C05Ex.ops_ok|repeat constructor].
+    - apply N.leb_le. reflexivity.
+    - vm_compute. reflexivity.
+    - vm_compute. reflexivity.
+  Qed.
+End IdleEx.
